@@ -48,6 +48,7 @@ type OpProfile struct {
 	PVarNamedID    float64 // a String/ID variable is named `id` (the name the gateway uses itself) and holds an object id
 	PNodeSecond    float64 // a root node selection carries a fragment on a second entity type (default 0.2)
 	ForceNodeRoot  bool    // the operation starts with a root node selection
+	PNodeIDOnly    float64 // forced node roots come in twos and threes; this share of them selects only `id` in the member fragment
 	PMirror        float64 // select one root field twice (aliases m1/m2) with near-identical sub-selections
 	IDStyle        int
 }
@@ -181,9 +182,15 @@ func (g *opGen) rootSelection(root *ast.Definition, kw string) string {
 	var parts []string
 	usedKeys := map[string]bool{}
 	if kw == "query" && g.p.ForceNodeRoot && root.Fields.ForName("node") != nil {
-		if s := g.nodeRoot(usedKeys); s != "" {
-			parts = append(parts, s)
-			n--
+		k := 1
+		if g.p.PNodeIDOnly > 0 {
+			k = 2 + g.r.Intn(2) // several aliased node roots, some selecting nothing but the id
+		}
+		for j := 0; j < k; j++ {
+			if s := g.nodeRoot(usedKeys); s != "" {
+				parts = append(parts, s)
+				n--
+			}
 		}
 	}
 	if kw == "query" && g.p.PMirror > 0 && g.chance(g.p.PMirror) {
@@ -325,6 +332,10 @@ func (g *opGen) nodeRoot(usedKeys map[string]bool) string {
 		inner = append(inner, "__typename")
 	}
 	frag := "... on " + t.Name + " " + g.selectionSet(t, g.p.Depth-1)
+	if g.p.PNodeIDOnly > 0 && g.chance(g.p.PNodeIDOnly) {
+		frag = "... on " + t.Name + " { id }"
+		g.tag("node-root-id-only")
+	}
 	inner = append(inner, frag)
 	p2 := g.p.PNodeSecond
 	if p2 == 0 {
